@@ -214,4 +214,16 @@ theorem withNewCas_stateAll {P : Row → Prop} {fn : TxnFn} (hfn : fn.Preserves 
       · exact StateAll.of_colls_eq rfl h2
       · exact h2
 
+/-- `Q` holds of every row function an entry point can run (with the key it runs it on). -/
+structure Family (Q : String → RowFn → Prop) : Prop where
+  add : ∀ k exp v j, Q k (addRow k exp v j)
+  set : ∀ k exp pe v j, Q k (setRow k exp pe v j)
+  incr : ∀ k amt d exp, Q k (incrRow k amt d exp)
+  wcas : ∀ k exp cas v o, Q k (wcasRow k exp cas v o)
+  remove : ∀ k ifCas, Q k (removeRow k ifCas)
+  touch : ∀ k exp, Q k (touchRow exp)
+  wwx : ∀ k val edits ifCas exp o m, Q k (wwxRow k val edits ifCas exp o m)
+  delx : ∀ k names, Q k (delxRow k names)
+  dsp : ∀ k names, Q k (dspRow k names)
+
 end Rosmar
